@@ -25,5 +25,6 @@ def main():
     rng = Rng(seed()).fork("C01")
     g = props.make_guard_run("quick", rng)
     g.build()
+    flows.build_inv()
     log("setup: guard workspace built (%.0fs total)" % (time.time() - t0))
     return 0
